@@ -86,6 +86,7 @@ class Client:
         self.attr0 = dict(built)
         self.g1 = []          # (description, z3 Bool): obligations "CLOSED is never left" raised at writes of _state
         self.lock.held_by_other = z3.Bool('connect_lock_held_by_another_task')
+        self.world.client_obj = self.obj
         self.inputs = {'state0': self.state0.term, 'has_writer': self.has_writer, 'has_receive_callback': self.has_rcb, 'has_status_callback': self.has_scb,
                        'has_receive_task': self.has_recv_task, 'connect_lock_held_by_another_task': self.lock.held_by_other}
 
@@ -112,6 +113,14 @@ class Client:
         new = z3.Int(f'state_after_suspension!{n}')
         ex.assume(z3.And(new >= 0, new <= 2, z3.Implies(old == CLOSED, new == CLOSED)))
         self.obj.attrs['_state'] = SymEnum('State', STATE_MEMBERS, new)
+        if getattr(self, 'links_may_change', False) and not self.lock.held_by_me:
+            # another task may have reconnected meanwhile: connect() replaces reader and writer (it needs the connect lock,
+            # which this task does not hold here)
+            if ex.choose(2, 'link-replaced-by-a-reconnect') == 1:
+                nw = WriterObj(self.world, f'writer-after-reconnect#{n}')
+                self.obj.attrs['writer'] = nw
+                self.obj.attrs['reader'] = ReaderObj(self.world, f'reader-after-reconnect#{n}')
+                self.world.event('link-replaced', nw)
 
 
 def default_await(client, reads=None, allow_cancel=True):
@@ -169,6 +178,17 @@ def default_await(client, reads=None, allow_cancel=True):
             if reads is None:
                 raise V.Unsupported('read without a read model')
             return reads(ex, w, a, suspend)
+        if k == 'wait_closed':
+            # StreamWriter.wait_closed(): waits for the transport to close and re-raises the error the connection was lost
+            # with, if any (dependency contract)
+            suspend()
+            c2 = ex.choose(3 if allow_cancel else 2, 'wait-closed-outcome')
+            if c2 == 1:
+                w.event('wait-closed-raised')
+                raise PyRaise(make_exc('ConnectionResetError', 'the error the old connection was lost with'))
+            if c2 == 2:
+                raise PyRaise(make_exc('CancelledError'))
+            return None
         raise V.Unsupported(f'await of {a!r}')
     return on_await
 
@@ -397,6 +417,7 @@ class SendTask(MethodTask):
     def make(self, ex, r):
         gw = {'ActisenseNmea2000Gateway': 'ACTISENSE', 'YachtDevicesNmea2000Gateway': 'YACHT_DEVICES'}.get(self.cls)
         c = Client(ex, r, self.cls, gw_type=gw)
+        c.links_may_change = True
         c.world.on_await = default_await(c)
         packets = [Opaque('packet0'), Opaque('packet1'), Opaque('packet2')]
         msg = Opaque('message')
@@ -429,7 +450,15 @@ class SendTask(MethodTask):
         enc_failed = self.cls == 'ActisenseNmea2000Gateway' or (st['encode_calls'] and not writes and not w.of('drain-no-suspend') and not [e for e in w.events if e[0] == 'suspend' and e[1] == 'drain'])
         # which packets were written, to which writer, in which order
         add('writes-are-the-encoder-packets-in-order', all(e[2] is st['packets'][i] for i, e in enumerate(writes)) and len(writes) <= len(st['packets']), f'{len(writes)} writes', 'send')
-        add('writes-go-to-the-connection-writer', all(e[1] is c.writer for e in writes))
+        # every packet goes to the link that is current when it is written (a reconnect by another task may replace the
+        # writer at any suspension; a writer looked up earlier is an abandoned connection)
+        def cur_is(e):
+            cur = e[3] if len(e) > 3 else None
+            if isinstance(cur, GV):
+                return any(x is e[1] for _, x in cur.alts)
+            return cur is e[1]
+        add('writes-go-to-the-current-connection-writer', all(cur_is(e) for e in writes),
+            'a packet is written to a writer that is no longer the connection of the client (looked up before a suspension)', 'stale-writer')
         # contiguity: between the first and the last write of this message no other task may write to the link
         for i, e in enumerate(w.events):
             if e[0] == 'suspend' and e[1] == 'drain':
@@ -598,6 +627,7 @@ class ConnectTask(MethodTask):
                 w.event('connect-attempt', c.obj.attrs['_state'])
                 c.interfere(ex)
                 if ex.choose(2, 'connect-impl-outcome') == 1:
+                    w.event('connect-refused')
                     raise PyRaise(make_exc('OSError', 'connection refused'))
                 nw, nr = WriterObj(w, 'new_writer'), ReaderObj(w, 'new_reader')
                 c.obj.attrs['writer'] = nw
@@ -638,6 +668,9 @@ class ConnectTask(MethodTask):
             else:
                 add('back-off-function-is-under-contract', False, f'wait={wt!r}: an unknown wait callable', 'retry')
         if st.get('attempt_outcome') == 'retry':
+            # "reports CONNECTED once the gateway accepts again": an attempt may fail only because the transport refused
+            add('attempt-fails-only-when-the-transport-refuses', bool(w.of('connect-refused')),
+                'a connection attempt fails before / without asking the transport (an exception of the client\'s own making): the client can stay DISCONNECTED although the gateway accepts', 'reconnect-after-reset')
             add('failed-attempt-is-retried', len(w.of('retry-scheduled')) == 1)
             add('failed-attempt-starts-no-receive-path', not w.of('spawn'))
             return
@@ -842,12 +875,16 @@ class ProcessQueueTask(MethodTask):
         gets = w.of('get')
         cbs = [e for e in w.of('callback') if e[1] == 'receive']
         add('consumer-spawns-nothing: callbacks are awaited one at a time', not w.of('spawn'), 'the callback is started as a separate task (deliveries may overlap / reorder)')
-        add('at-most-one-item-taken-per-iteration', len(gets) <= 1)
-        if gets:
-            add('callback-gets-exactly-the-dequeued-item-once', z3.Implies(c.has_rcb, z3.BoolVal(len(cbs) == 1 and cbs[0][2] is gets[0][1])), f'{len(cbs)} callback invocations')
+        # every item taken off the queue in this iteration (one, or a batch) reaches the callback exactly once, in queue order,
+        # whatever the earlier callback invocations of the iteration did - unless the consumer is being cancelled
+        cancelled = p.kind == 'raise' and p.exc_name() == 'CancelledError'
+        if gets and not cancelled:
+            same = len(cbs) == len(gets) and all(cb[2] is g[1] for cb, g in zip(cbs, gets))
+            add('callback-gets-exactly-the-dequeued-items-once-in-order', z3.Implies(c.has_rcb, z3.BoolVal(same)),
+                f'{len(gets)} item(s) dequeued, {len(cbs)} callback invocation(s)' + ('' if len(cbs) == len(gets) else ': an item is dropped or repeated (after a callback raised?)'), 'callback-raises')
             add('no-callback-no-invocation', z3.Implies(z3.Not(c.has_rcb), z3.BoolVal(not cbs)))
             if p.kind == 'return':
-                add('item-marked-done', len(w.of('task_done')) == 1)
+                add('items-marked-done', len(w.of('task_done')) == len(gets), f'{len(w.of("task_done"))} task_done for {len(gets)} items')
         if p.kind == 'raise':
             add('consumer-ends-only-by-cancellation', p.exc_name() == 'CancelledError', f'consumer loop dies with {p.exc_name()}: later messages are never delivered')
         add('consumer-writes-no-connection-state', not w.of('state'))
